@@ -47,6 +47,9 @@ class Frame:
         self.call = call
         self.self_same = self_same      # `self` is the root frame's self
         self.depth = 0 if parent is None else parent.depth + 1
+        # parameter -> (argument path expression, caller frame), for
+        # parameters bound to a plain name / attribute path
+        self.bindings = {}
 
     def chain(self) -> List['Frame']:
         out, f = [], self
@@ -173,8 +176,10 @@ class Builder:
     def __init__(self, prog: Program, resolver: Resolver,
                  inline: Callable = never_inline,
                  raises: Callable = default_raises,
-                 max_depth: int = 6, assert_raises: bool = True):
+                 max_depth: int = 6, assert_raises: bool = True,
+                 thread_returns: bool = True):
         self.assert_raises = assert_raises
+        self.thread_returns = thread_returns
         self.p = prog
         self.r = resolver
         self.inline = inline
@@ -418,10 +423,32 @@ class Builder:
                 self._target_exprs(t, frame)
             self._emit('stmt', s, frame)
         elif isinstance(s, ast.Return):
+            fi = self._func_index(frame)
+            fs = self.stack[fi]
+            if fs.data.get('thread'):
+                # the caller branches on the returned value: `return E` is a
+                # branch on E (jump threading), so that what the helper
+                # tested is visible on the caller's true / false edges
+                if s.value is None:
+                    t_edges, f_edges = [], self.dangling
+                else:
+                    t_edges, f_edges = self._cond(s.value, frame)
+                saved = list(self.stack)
+                for cls, edges in (('T', t_edges), ('F', f_edges)):
+                    if not edges:
+                        continue
+                    self.stack = list(saved)
+                    self.dangling = edges
+                    n = self._emit('stmt', s, frame)
+                    n.extra['ret_class'] = cls
+                    self._abrupt(fi, frame)
+                    fs.data['ret_' + cls].extend(self.dangling)
+                self.stack = saved
+                self.dangling = []
+                return
             if s.value is not None:
                 self._expr(s.value, frame)
             self._emit('stmt', s, frame)
-            fi = self._func_index(frame)
             self._abrupt(fi, frame)
             self.stack[fi].data['returns'].extend(self.dangling)
             self.dangling = []
@@ -646,11 +673,45 @@ class Builder:
             if e.value:
                 return [(n, 'T')], []
             return [], [(n, 'F')]
+        if isinstance(e, ast.Call) and self.thread_returns:
+            r = self._cond_call(e, frame)
+            if r is not None:
+                return r
         self._expr(e, frame)
         if not self.dangling:
             return [], []
         n = self._emit('test', e, frame)
         return [(n, 'T')], [(n, 'F')]
+
+    def _cond_call(self, e: ast.Call, frame):
+        """Branch on the result of a call that is inlined: thread each
+        `return` of the callee to the caller's true / false continuation.
+        Returns None when the call is not a candidate (nothing emitted)."""
+        if frame.depth >= self.max_depth or not self.dangling:
+            return None
+        res = self.r.resolve_call(e, frame.ctx)
+        if len(res.targets) != 1 or res.externals or res.unresolved or \
+                res.ctor_of:
+            return None
+        t = res.targets[0]
+        active = {f.ctx.key() for f in frame.chain()}
+        if t.ctx().key() in active or not self.inline(self, e, t, frame):
+            return None
+        from .model import walk_own
+        body = t.func.node
+        if any(isinstance(x, (ast.Yield, ast.YieldFrom))
+               for x in walk_own(body)):
+            return None
+        if not any(isinstance(x, ast.Return) for x in walk_own(body)):
+            return None
+        self._expr(e.func, frame)
+        for a in e.args:
+            self._expr(a.value if isinstance(a, ast.Starred) else a, frame)
+        for k in e.keywords:
+            self._expr(k.value, frame)
+        if not self.dangling:
+            return [], []
+        return self._inline(e, t, frame, res, thread=True)
 
     def _target_exprs(self, t, frame):
         if isinstance(t, ast.Subscript):
@@ -788,7 +849,7 @@ class Builder:
             ends.append((n, 'next'))
         self.dangling = ends
 
-    def _inline(self, e: ast.Call, t: Target, frame, res):
+    def _inline(self, e: ast.Call, t: Target, frame, res, thread=False):
         same = frame.self_same and t.recv_is_self
         cctx = t.ctx()
         lits = []
@@ -832,7 +893,7 @@ class Builder:
         ce.extra['callee_frame'] = callee
         ce.extra['res'] = res
         fscope = Scope('func', t.func.node, callee, returns=[], root=False,
-                       call=e)
+                       call=e, thread=thread, ret_T=[], ret_F=[])
         self.stack.append(fscope)
         # parameter bindings
         f = t.func
@@ -869,7 +930,29 @@ class Builder:
             b = self._emit('bind', None, callee)
             b.extra.update(param=pname, arg=arg, arg_frame=frame,
                            default=default, is_self=False)
+            if arg is not None and isinstance(arg, (ast.Name,
+                                                    ast.Attribute)):
+                callee.bindings[pname] = (arg, frame)
         self._body(f.node.body, callee)
+        if thread:
+            # falling off the end returns None
+            fscope.data['ret_F'].extend(self.dangling)
+            self.stack.pop()
+            outs = []
+            for cls in ('T', 'F'):
+                edges = fscope.data['ret_' + cls]
+                if not edges:
+                    outs.append([])
+                    continue
+                cr = self._new('call_return', e, frame)
+                cr.extra['target'] = t
+                cr.extra['callee_frame'] = callee
+                cr.extra['ret_class'] = cls
+                for a, l in edges:
+                    self._edge(a, l, cr)
+                outs.append([(cr, 'next')])
+            self.dangling = []
+            return outs[0], outs[1]
         rets = self.dangling + fscope.data['returns']
         self.stack.pop()
         cr = self._new('call_return', e, frame)
